@@ -223,4 +223,69 @@ def runOps (monos : List Bool) (omin omax : Option Rat) (st : State) (ops : List
 def finalizeConstraints (monos : List Bool) (omin omax : Option Rat) (rs : List Rat) (st : State) : State :=
   runOps monos omin omax st [.consK rs, .consS]
 
+/-! ## bookkeeping over an ARBITRARY run (C07): which constraint saw what
+
+The kernel projection orients every term by `sign(scale_t)` AT THE TIME IT RUNS. `Track` records,
+along a run of raw updates and constraint calls in any interleaving,
+* `ref` — the scale the last kernel-constraint call read, provided no raw kernel update came after it;
+* `sFresh` — the scale constraint has run after the last raw scale update.
+Nothing here looks at the kernel values or at the root factors. -/
+
+structure Track where
+  ref : Option (List Rat)
+  sFresh : Bool
+
+/-- before anything has happened -/
+def Track.init : Track := { ref := none, sFresh := false }
+
+/-- `st` is the state the op is applied TO -/
+def trackStep (st : State) (tr : Track) : Op → Track
+  | .assignK _ => { tr with ref := none }
+  | .assignS _ => { tr with sFresh := false }
+  | .consK _ => { tr with ref := some st.scale }
+  | .consS => { tr with sFresh := true }
+
+def runTracked (monos : List Bool) (omin omax : Option Rat) : State → Track → List Op → State × Track
+  | st, tr, [] => (st, tr)
+  | st, tr, op :: ops => runTracked monos omin omax (step monos omin omax st op) (trackStep st tr op) ops
+
+/-- the bookkeeping of a whole run started with nothing known -/
+def trackOf (monos : List Bool) (omin omax : Option Rat) (st : State) (ops : List Op) : Track :=
+  (runTracked monos omin omax st Track.init ops).2
+
+/-- term `t` is still oriented correctly when the scale went from `r` (seen by the kernel
+constraint) to `f` (now): the kernel of the term was zeroed (`r = 0`), or the term is switched
+off (`f = 0`), or the sign is the same. -/
+def signOk1 (r f : Rat) : Bool := decide (r = 0) || decide (f = 0) || decide (sgn f = sgn r)
+
+def signsOk : List Rat → List Rat → Bool
+  | [], [] => true
+  | r :: rs, f :: fs => signOk1 r f && signsOk rs fs
+  | _, _ => false
+
+/-- the monotonicity clause is covered at the end of the run: a kernel-constraint call came after
+the last raw kernel update, and no term's scale has changed to the opposite non-zero sign since -/
+def monoCovered (tr : Track) (scale : List Rat) : Bool :=
+  match tr.ref with
+  | some r => signsOk r scale
+  | none => false
+
+/-- the bounds clause is covered: each constraint ran after the last raw update of ITS variable -/
+def boundCovered (tr : Track) : Bool := tr.ref.isSome && tr.sFresh
+
+/-- one optimizer step of `tf_keras.optimizers.legacy.*` (`optimizer_v2._distributed_apply`): per
+variable "update, then `var.assign(var.constraint(var))`", variables in `trainable_variables` order —
+the layer creates `scale` before `kernel` -/
+def kerasStepPerVar (s : List Rat) (K : List (List (List Rat))) (rs : List Rat) : List Op :=
+  [.assignS s, .consS, .assignK K, .consK rs]
+
+/-- one optimizer step of `tf_keras.optimizers.*` (`Optimizer.apply_gradients`): all updates, then
+the constraints of all variables in `trainable_variables` order -/
+def kerasStepBatch (s : List Rat) (K : List (List (List Rat))) (rs : List Rat) : List Op :=
+  [.assignS s, .assignK K, .consS, .consK rs]
+
+/-- the opposite per-variable order (kernel first): NOT what the layer does; a custom loop can -/
+def kernelFirstStep (s : List Rat) (K : List (List (List Rat))) (rs : List Rat) : List Op :=
+  [.assignK K, .consK rs, .assignS s, .consS]
+
 end Tfl.Kfl
